@@ -85,7 +85,17 @@ def run(ctx):
     qm = M.one(ma.node, "$q = queue.Queue()")
     ctx.require(qm is not None, "map_async: shared queue not found")
     qv = qm["q"]
+    # callers that run the map for its effect and drop the result (the threaded merge triggers) rely on the call itself
+    # doing the work: map_async must not be a generator function, whose body only runs when the result is iterated
+    from ..core import lints as _lints
+    droppers = [f_ for f_ in P.all_funcs() for _n, t_, _m in _lints.discarded_generator_call(P, f_) if t_.endswith(":" + ma.node.name)]
+    lazy = any(isinstance(n, (ast.Yield, ast.YieldFrom)) for n in A.body_walk(ma.node))
+    ctx.check("R2", ma, not lazy, "map-runs-at-call", "map_async does its work when called (it is not a generator function)",
+              "map_async contains `yield`: calling it only builds a generator, no thread is started and no item is handed out until the result is iterated"
+              + (f" — {', '.join(sorted({d.qual for d in droppers}))} call(s) it as a bare statement and never do" if droppers else ""))
     rets = [r for r in A.returns(ma.node) if r.value is not None and A.unparse(r.value) == resv]
+    if lazy and not rets:
+        return
     ctx.require(len(rets) == 1, "map_async: return of the results container not found")
     rc = P.func(MOD, "reclaim_threads")
     joins = [x for x in A.calls(rc.node) if A.call_attr(x) == "join"]
